@@ -21,18 +21,27 @@
 #include "driver.hpp"
 
 using vs::rcu::Elem;
-using List = gmlc::libguarded::rcu_list<Elem, vstd::mutex, vs::rcu::VAlloc<Elem>>;
-using Guarded = gmlc::libguarded::rcu_guarded<List>;
+using vs::rcu::TrivElem;
 
-struct RcuComp {
+struct IRcu {
+    virtual ~IRcu() = default;
+    virtual long op(int tid, const std::vector<long>& o) = 0;
+    virtual void final(std::vector<std::vector<long>>& out) = 0;
+};
+
+// cfg = [unfixed (model only), element kind: 0 = Elem (owns a std::string), 1 = TrivElem (trivially destructible)]
+template<class E>
+struct RcuImpl: IRcu {
+    using List = gmlc::libguarded::rcu_list<E, vstd::mutex, vs::rcu::VAlloc<E>>;
+    using Guarded = gmlc::libguarded::rcu_guarded<List>;
     struct Th {
-        std::optional<Guarded::read_handle> rh;
-        std::optional<Guarded::write_handle> wh;
-        std::map<long, List::const_iterator> its;
+        std::optional<typename Guarded::read_handle> rh;
+        std::optional<typename Guarded::write_handle> wh;
+        std::map<long, typename List::const_iterator> its;
     };
     std::unique_ptr<Guarded> g;
     std::vector<Th> th;
-    explicit RcuComp(const vs::Case& c): th(c.progs.size())
+    explicit RcuImpl(const vs::Case& c): th(c.progs.size())
     {
         vs::rcu::reg().reset();
         g.reset(new Guarded());
@@ -42,10 +51,10 @@ struct RcuComp {
         vs::S().emit(vs::K_FAULT, nullptr, 9);
         return 0;
     }
-    long op(int tid, const std::vector<long>& o)
+    long op(int tid, const std::vector<long>& o) override
     {
         Th& me = th[tid];
-        const List::end_iterator end{};
+        const typename List::end_iterator end{};
         long a = o.size() > 1 ? o[1] : 0;
         long code = o[0];
         // 12 BeginFail it | 13 PushFail v | 14 EraseFail it: the same calls with the first allocation failing
@@ -66,7 +75,7 @@ struct RcuComp {
                 if (me.rh)
                     me.its.insert_or_assign(a, (*me.rh)->begin());
                 else if (me.wh)
-                    me.its.insert_or_assign(a, List::const_iterator((*me.wh)->begin()));
+                    me.its.insert_or_assign(a, typename List::const_iterator((*me.wh)->begin()));
                 else
                     return misuse();
                 return 0;
@@ -89,11 +98,11 @@ struct RcuComp {
             }
             case 6:
                 if (!me.wh) return misuse();
-                (*me.wh)->push_front(Elem(Elem::Quiet{}, a));
+                (*me.wh)->push_front(E(typename E::Quiet{}, a));
                 return 0;
             case 7:
                 if (!me.wh) return misuse();
-                (*me.wh)->push_back(Elem(Elem::Quiet{}, a));
+                (*me.wh)->push_back(E(typename E::Quiet{}, a));
                 return 0;
             case 8:
                 if (!me.wh) return misuse();
@@ -107,7 +116,7 @@ struct RcuComp {
                 auto it = me.its.find(a);
                 if (!me.wh || it == me.its.end()) return misuse();
                 if (it->second == end) return 0;
-                it->second = List::const_iterator((*me.wh)->erase(it->second));
+                it->second = typename List::const_iterator((*me.wh)->erase(it->second));
                 return 0;
             }
             case 11:
@@ -119,7 +128,7 @@ struct RcuComp {
         }
         return 0;
     }
-    void final(std::vector<std::vector<long>>& out)
+    void final(std::vector<std::vector<long>>& out) override
     {
         if (!vs::S().all_finished()) {
             out.push_back({-4});
@@ -137,6 +146,18 @@ struct RcuComp {
         for (auto& c : vs::rcu::reg().cells) nf += c.state != vs::rcu::ST_FREED;
         out.push_back({-1, (long)vs::rcu::reg().cells.size(), nf, vs::rcu::reg().faults > 0 ? 1 : 0});
     }
+};
+struct RcuComp {
+    std::unique_ptr<IRcu> p;
+    explicit RcuComp(const vs::Case& c)
+    {
+        if (c.cfg.size() > 1 && c.cfg[1] == 1)
+            p.reset(new RcuImpl<TrivElem>(c));
+        else
+            p.reset(new RcuImpl<Elem>(c));
+    }
+    long op(int tid, const std::vector<long>& o) { return p->op(tid, o); }
+    void final(std::vector<std::vector<long>>& out) { p->final(out); }
 };
 // UBSan's fatal path does not run the ASan death callback that driver.hpp installs, so the trace of a run
 // that ends in a UBSan report would be lost; make it abort() instead: the driver's SIGABRT handler flushes
